@@ -418,7 +418,7 @@ impl Engine for C10 {
         "C10"
     }
     fn rule(&self) -> String {
-        "notes = every block forest up to the bound over {paragraph, #, ##, ###, fenced code, table, block reference, rule, quote, bullet and ordered lists (nested / mixed)}, formatted first; every line is sent to codeAction and every offered section-to-list / list-to-sections / change-list-type action is resolved on the real Server and applied by R9. Oracle: only the note itself is rewritten; the sequence of content leaves (R1; headings and item texts are the same thing here) is unchanged; change-list-type applied twice and section-to-list followed by list-to-sections (for a section not adjacent to another list) give the formatted original byte-for-byte. non-trivial = at least one such action was offered".into()
+        "notes = every block forest up to the bound over {paragraph, #, ##, ###, fenced code, table, block reference, rule, quote, bullet and ordered lists (nested / mixed)}, formatted first; every line is sent to codeAction and every offered section-to-list / list-to-sections / change-list-type action is resolved on the real Server and applied by R9. Oracle: only the note itself is rewritten; the sequence of content leaves (R1; headings and item texts are the same thing here) is unchanged; change-list-type changes the kind of exactly one list, the innermost list around the line (lists numbered in document order by the harness's own parse; compared when input and result have the same number of lists); change-list-type applied twice and section-to-list followed by list-to-sections (for a section not adjacent to another list) give the formatted original byte-for-byte. non-trivial = at least one such action was offered".into()
     }
     fn bound(&self, tier: Tier) -> String {
         match tier {
@@ -508,6 +508,21 @@ impl Engine for C10 {
                     let i = before.iter().zip(after.iter()).position(|(x, y)| x != y).unwrap_or(before.len().min(after.len()));
                     push!("content", &kind, format!("content leaves differ from leaf {}: before {:?} after {:?}; result {:?}; {}", i, before.get(i), after.get(i), t2, ctx));
                     continue;
+                }
+                // only the list the line belongs to changes its kind (the innermost list around the line)
+                if kind == K_LIST_TYPE {
+                    let before_lists = list_spans(&text);
+                    let after_lists = list_spans(&t2);
+                    if before_lists.len() == after_lists.len() {
+                        let flipped: Vec<usize> = (0..before_lists.len()).filter(|i| before_lists[*i].0 != after_lists[*i].0).collect();
+                        let target = before_lists.iter().rposition(|l| l.1 <= line as usize && line as usize <= l.2);
+                        if let Some(t) = target {
+                            if flipped != vec![t] {
+                                push!("scope", "list-type:other-list", format!("the line belongs to list #{} (lines {}..={}) but the lists that changed kind are {:?} (of {:?}); result {:?}; {}", t, before_lists[t].1, before_lists[t].2, flipped, before_lists, t2, ctx));
+                                continue;
+                            }
+                        }
+                    }
                 }
                 // inverse
                 if kind == K_LIST_TYPE {
